@@ -163,9 +163,8 @@ FamilyFails(fam) ==
 \* key <-> API name, computed from the classes (independent of the generated index)
 PayloadApis == {Modules[i].api : i \in {j \in 1..Len(Modules) : Modules[j].etype \in {"request", "response"}}}
 KeyOfApi(api) ==
-  LET ms == {j \in 1..Len(Modules) : Modules[j].api = api /\ Modules[j].etype \in {"request", "response"}}
-      j == CHOOSE k \in ms : TRUE
-  IN TopOf(api, Modules[j].etype, Modules[j].version).api_key
+  LET T == TopsOf(api, "request") \o TopsOf(api, "response")
+  IN IF T = <<>> THEN -1 ELSE T[1].api_key
 ApiTable == {<<KeyOfApi(a), a>> : a \in PayloadApis}
 
 ModulePathOfTop(m) ==
@@ -191,7 +190,7 @@ LookupEntity(api, version, etype) ==
   IN IF ms = {} THEN Answer("UnknownEntity", "", "")
      ELSE LET m == Modules[CHOOSE j \in ms : TRUE]
               tops == SelectSeq(ClassesOf(m), LAMBDA c : c.etype # "nested")
-          IN Answer("ok", m.path, tops[1].name)
+          IN Answer("ok", m.path, IF tops = <<>> THEN "" ELSE tops[1].name)   \* a class-less module is reported by ModuleFails
 ApiOfKey(key) == IF \E p \in ApiTable : p[1] = key THEN (CHOOSE p \in ApiTable : p[1] = key)[2] ELSE ""
 
 \* a query is [fn, kind \in {"name","key"}, valid (arguments are of the documented types),
